@@ -362,6 +362,10 @@ def run_check(prop, tier, seed, replay=None):
         e = known[m]
         print('KNOWN-FINDING: property=%s %s: %s [%d witnesses]' % (
             prop, m, e.get('mechanism', ''), len(vs)))
+    # a listed finding whose failing input this run (tier, seed) did not generate is still a listed finding
+    for m in sorted(set(known) - set(matched)):
+        print('KNOWN-FINDING: property=%s %s: %s [its failing input was not generated by this run]' % (
+            prop, m, known[m].get('mechanism', '')))
     if fresh:
         seen = {}
         n = 0
